@@ -89,4 +89,30 @@ def boundary_u256(rng):
     return rng.getrandbits(rng.choice([8, 16, 32, 64, 128, 256]))
 
 
+# Key pairs found by a birthday search: the two addresses share their first 4 bytes (ADDR) / the two public keys share the first 4
+# bytes of x (PUBX). Anything that identifies a key by a truncated address or public key confuses the two.
+COLLIDING_KEYS = [
+    (0x45b264d64ae9d7324889b6808555154800ddc4550b908b629581bf340760592d, 0x6c4467015832f2fe9728dcebfa8b599a121ea7d88f9dcaae109002a8c9f16edf),
+    (0xe298cab5adfd8431e9947479a3025baa6b9a396113c9a2c0125f3580263baf68, 0x68600f0fc0c72712ab66226099aa8526ad14374d9fb0b62c744adc7cb6f786a9),
+    (0x49ff73895a0511b9b12659a1c398e8252c3aefd8ba7b559ad3a2b0457039eeb2, 0x240d4a4dea70ffcbdba8cebd50dc214e1f69143add736a71dd64367f69793d4f),
+    (0xcdf36c1f9ac9816b64e434b0be5dadebaac1aa8d6886080a09eb57baa6cd3159, 0x14060315e984313f05c37488aeac6aa0736d14942db46fefaa7ca28a1f9d3a72),
+]
+
+
+def near_collisions(rng, nbytes=32):
+    """Two distinct byte strings that agree on a long prefix, a long suffix, or everywhere but one bit."""
+    a = rand_bytes(rng, nbytes)
+    k = rng.randrange(4)
+    if k == 0:
+        b = a[:nbytes - 4] + rand_bytes(rng, 4)
+    elif k == 1:
+        b = rand_bytes(rng, 4) + a[4:]
+    elif k == 2:
+        i = rng.randrange(nbytes * 8)
+        b = (int.from_bytes(a, "big") ^ (1 << i)).to_bytes(nbytes, "big")
+    else:
+        b = a[:8] + rand_bytes(rng, nbytes - 16) + a[-8:]
+    return a, (b if b != a else bytes([a[0] ^ 1]) + a[1:])
+
+
 UNICODE_WS = ["\u00a0", "\u2003", "\u3000", "\u2028", "\u0085", "\u1680", "\u202f"]
